@@ -51,6 +51,17 @@ func resolveGraph(w *World) *graphRoles {
 	if g.updateDegrees == nil {
 		undecidedf("role %q could not be resolved", "degree recomputation")
 	}
+	// the increment may live in a private helper (a method of Node): the role is
+	// the graph method that drives it
+	for hops := 0; hops < 3 && !recvIs(g.updateDegrees, "DependencyGraph"); hops++ {
+		cs := w.Callers()[g.updateDegrees]
+		if len(cs) != 1 {
+			break
+		}
+		for c := range cs {
+			g.updateDegrees = c
+		}
+	}
 	return g
 }
 
@@ -641,3 +652,4 @@ func indexFold(s, sub string) int {
 	}
 	return -1
 }
+
